@@ -565,3 +565,21 @@ Proof. vm_compute. reflexivity. Qed.
 
 Example ex_acked : map r_id (acked_of 7%N (trace_hist 7%N Explicit 5%N empty ex_hist)) = [1]%N.
 Proof. vm_compute. reflexivity. Qed.
+
+(** Boundary of the property (not a violation of it): under the automatic policy the stream
+    commits the acknowledgement BEFORE the event is handed to the application channel
+    (stream.rs [process_operation] / [ack_published_operation]).  A crash in between leaves an
+    operation that is stored, acknowledged, was never delivered and will not be replayed. *)
+Definition ex_gap_row : row :=
+  {| r_id := 1%N; r_author := 5%N; r_log := 7%N; r_seq := 0%N; r_body := Body; r_prune := false |}.
+Definition ex_gap_trace : list label := [LStore ex_gap_row; LEnqueue ex_gap_row; LAck ex_gap_row; LCrash].
+
+Example auto_ack_before_delivery_gap :
+  let s := exec 7%N init ex_gap_trace in
+  In ex_gap_row (rows (dur s)) /\ appq s = [] /\ ~ In (LDeliver) ex_gap_trace /\
+  delivered_on_restart (dur s) = [].
+Proof.
+  vm_compute. repeat split; try reflexivity.
+  - left. reflexivity.
+  - intros H. repeat (destruct H as [H|H]; [discriminate H|]). exact H.
+Qed.
